@@ -16,7 +16,8 @@ u64 os_len;
    virtual base, see os_ios_of) - then only insertions into that stream are captured / counted / may fail.  With
    os_target == 0 every stream counts. */
 void *os_target, *os_target_ios;
-_Bool os_failed;          /* sticky failbit|badbit of the observed stream */
+_Bool os_failed;          /* the observed stream is in a failed state (sticky) */
+u32 os_fail_state;        /* which iostate bits: badbit (1) for a failed insertion/flush, failbit (4) for a failed close */
 u32 os_pending;           /* bytes inserted into the observed stream since its last successful flush */
 u32 os_written;           /* bytes inserted into the observed stream in total */
 _Bool os_cin_good = 1;    /* state of std::cin (harness may make it arbitrary) */
@@ -25,12 +26,13 @@ static void *os_cur;
 /* address of the basic_ios virtual base of a stream object: this + vtable[-3] (Itanium ABI vbase offset) */
 void *os_ios_of(void *os) { u8 *vt = *(u8 **)os; return (u8 *)os + *(int64_t *)(vt - 24); }
 static int os_observed(void) { return os_target == 0 || os_cur == os_target; }
-static void os_fault(void)
+static void os_fault_bits(u32 bits)
 {
 #ifdef OS_FAULTS
-  if (os_observed() && nondet_bool()) os_failed = 1;
+  if (os_observed() && nondet_bool()) { os_failed = 1; os_fail_state |= bits; }
 #endif
 }
+static void os_fault(void) { os_fault_bits(1); }
 static void os_put(u8 c)
 {
   if (!os_observed()) return;
@@ -151,7 +153,7 @@ void *_ZNSolsEi(void *os, u32 v) { os_cur = os; os_put('#'); return os; }
 static u32 os_state_of(void *ios)
 {
   if (ios == os_cin_ios && os_cin_ios) return os_cin_good ? 0 : 4;
-  if (os_target_ios ? ios == os_target_ios : 1) return os_failed ? 1 : 0;   /* badbit */
+  if (os_target_ios ? ios == os_target_ios : 1) return os_failed ? (os_fail_state ? os_fail_state : 1) : 0;
   return 0;
 }
 #ifdef DECL__ZNKSt9basic_iosIcSt11char_traitsIcEE4goodEv
@@ -189,7 +191,7 @@ u8 _ZNKSt14basic_ofstreamIcSt11char_traitsIcEE7is_openEv(void *f) { return os_fi
 #endif
 #ifdef DECL__ZNSt14basic_ofstreamIcSt11char_traitsIcEE5closeEv
 void _ZNSt14basic_ofstreamIcSt11char_traitsIcEE5closeEv(void *f)
-{ os_cur = f; if (os_observed()) { os_fault(); if (!os_failed) os_pending = 0; } os_file_open = 0; }
+{ os_cur = f; if (os_observed()) { os_fault_bits(4); /* basic_ofstream::close: setstate(failbit) on failure */ if (!os_failed) os_pending = 0; } os_file_open = 0; }
 #endif
 #ifdef DECL__ZNSt14basic_ofstreamIcSt11char_traitsIcEED1Ev
 void _ZNSt14basic_ofstreamIcSt11char_traitsIcEED1Ev(void *f) { os_file_open = 0; }
